@@ -7,7 +7,7 @@ from typing import Dict, List, Optional, Set, Tuple
 
 from ..astutil import Defs
 from ..cfg import cfg_of
-from ..core import AnalysisError, FuncInfo, attr_chain, short, walk_no_nested, walk_stmts
+from ..core import AnalysisError, FuncInfo, attr_chain, cshort, short, walk_no_nested, walk_stmts
 from ..effects import effects_of
 from . import nameres
 
@@ -140,7 +140,9 @@ def _sanitiser(ctx) -> None:
             if rep != "_":
                 problems.append(f"invalid runs are replaced by {rep!r}, not '_'")
         if s == "digit":
-            if not (len(st.body) == 1 and short(st.body[0]).replace('"', "'").endswith("= 'c' + sanitized")):
+            b0 = st.body[0] if len(st.body) == 1 else None
+            if not (isinstance(b0, ast.Assign) and isinstance(b0.targets[0], ast.Name)
+                    and short(b0.value).replace('"', "'") == f"'c' + {b0.targets[0].id}"):
                 problems.append(f"a leading digit is handled by `{short(st.body[0], 50)}`, expected the prefix 'c'")
             if "[0].isdigit()" not in short(st.test):
                 problems.append("the leading-digit test does not look at the first character")
@@ -153,15 +155,28 @@ def _sanitiser(ctx) -> None:
         if s == "reserved":
             if not short(st.body[0]).replace('"', "'").endswith("+ '_'"):
                 problems.append("a reserved name is not suffixed with '_'")
-            if short(st.test) != "sanitized in _get_reserved_names()":
+            if not (isinstance(st.test, ast.Compare) and isinstance(st.test.left, ast.Name) and len(st.test.ops) == 1
+                    and isinstance(st.test.ops[0], ast.In) and short(st.test.comparators[0]) == "_get_reserved_names()"):
                 problems.append(f"reserved test is `{short(st.test)}`")
     ctx.ob("a.sanitiser", f, "steps", not problems, "kept alphabet [a-z0-9_], + quantifier, 'c' prefix, '_' suffixes", f.node,
            message="; ".join(problems))
     # reserved set is built from the public callables / properties of Vector and Table, lower-cased
     g = prog.func("naming._get_reserved_names")
-    t = short(g.node, 2000)
-    ok = "for cls in (Vector, Table)" in t and "name.startswith('_')" in t and "callable(attr) or isinstance(attr, property)" in t \
-        and "reserved.add(name.lower())" in t
+    free = {}
+    for n in walk_no_nested(g.node):
+        if isinstance(n, ast.For) and isinstance(n.target, ast.Name):
+            if short(n.iter) == "(Vector, Table)":
+                free[n.target.id] = "CLS"
+            elif isinstance(n.iter, ast.Call) and short(n.iter.func) == "dir":
+                free[n.target.id] = "NAME"
+    for n in walk_no_nested(g.node):
+        if isinstance(n, ast.Assign) and isinstance(n.value, ast.Call) and short(n.value.func) == "getattr" and isinstance(n.targets[0], ast.Name):
+            free[n.targets[0].id] = "ATTR"
+        if isinstance(n, ast.Call) and isinstance(n.func, ast.Attribute) and n.func.attr == "add" and isinstance(n.func.value, ast.Name):
+            free[n.func.value.id] = "SET"
+    t = cshort(g.node, free, 4000).replace('"', "'")
+    ok = "for CLS in (Vector, Table)" in t and "for NAME in dir(CLS)" in t and "NAME.startswith('_')" in t \
+        and "callable(ATTR) or isinstance(ATTR, property)" in t and "SET.add(NAME.lower())" in t
     ctx.ob("a.sanitiser", g, "reserved-source", ok, "reserved = public callables/properties of Vector and Table", g.node,
            message="_get_reserved_names no longer collects every public callable/property of Vector and Table")
 
@@ -189,35 +204,47 @@ def _reserved(ctx) -> None:
 
 # --------------------------------------------------------------------------------------------- d
 def kernel_facts(f: FuncInfo) -> dict:
-    """Facts of one naming kernel: loop domain, unnamed/empty/duplicate forms, separator rule, first-occurrence rule."""
+    """Facts of one naming kernel, with the roles of its locals found by dataflow (idx = loop position, base = the
+    sanitised name, sep / seen by use) and every text canonicalised over those roles."""
     facts = {"domain": None, "unnamed": None, "empty": None, "dup": None, "sep": None, "first": None, "seen_scope": None}
     loops = [s for s in f.body if isinstance(s, ast.For)]
     for lp in loops:
-        txt = short(lp, 3000)
-        if "_sanitize_user_name(" not in txt:
+        if not any(isinstance(n, ast.Call) and short(n.func) == "_sanitize_user_name" for n in walk_no_nested(lp)):
             continue
         facts["domain"] = short(lp.iter)
         tg = [n.id for n in ast.walk(lp.target) if isinstance(n, ast.Name)]
         idx = tg[0] if tg else "?"
         facts["idx"] = idx
+        base = None
+        for s in walk_stmts(lp.body):
+            if isinstance(s, ast.Assign) and isinstance(s.value, ast.Call) and short(s.value.func) == "_sanitize_user_name" \
+                    and isinstance(s.targets[0], ast.Name):
+                base = s.targets[0].id
+        sepv = seen = None
+        for s in walk_stmts(lp.body):
+            if isinstance(s, ast.Assign) and isinstance(s.value, ast.IfExp) and isinstance(s.targets[0], ast.Name) \
+                    and ".endswith('_')" in short(s.value.test).replace('"', "'"):
+                sepv = s.targets[0].id
+                facts["sep"] = cshort(s.value, {base: "BASE"}).replace('"', "'")
+            if isinstance(s, ast.If) and isinstance(s.test, ast.Compare) and len(s.test.ops) == 1 and isinstance(s.test.ops[0], ast.In) \
+                    and short(s.test.left) == base and isinstance(s.test.comparators[0], ast.Name):
+                seen = s.test.comparators[0].id
+        free = {base: "BASE", idx: "IDX"}
+        if sepv:
+            free[sepv] = "SEP"
         for s in walk_stmts(lp.body):
             if isinstance(s, ast.Assign) and isinstance(s.value, ast.JoinedStr):
-                v = short(s.value).replace('"', "'")
+                v = cshort(s.value, free).replace('"', "'")
                 g = _guards_in(lp, s)
-                if v == f"f'col{{{idx}}}_'":
-                    if any("is None" in x and "_name" not in x for x in g) :
+                if v == "f'col{IDX}_'":
+                    if any("is None" in x and "_name" not in x for x in g):
                         facts["empty"] = "col{idx}_"
                     else:
                         facts["unnamed"] = "col{idx}_"
-                elif "{sep}_{" in v:
-                    facts["dup"] = re.sub(r"\{(\w+)\}", lambda m: "{base}" if m.group(1) not in ("sep", idx) else "{" + ("idx" if m.group(1) == idx else "sep") + "}", v)
-            if isinstance(s, ast.Assign) and isinstance(s.targets[0], ast.Name) and s.targets[0].id == "sep":
-                facts["sep"] = short(s.value).replace('"', "'")
-        # first occurrence keeps the plain base and is recorded
-        facts["first"] = any(isinstance(s, ast.If) and " in seen" in short(s.test) for s in walk_stmts(lp.body))
-        # where is `seen` initialised: before the loop over ALL columns
-        facts["seen_scope"] = "before-loop" if any(isinstance(s, ast.Assign) and short(s.targets[0]) == "seen" for s in f.body) else "?"
-        # emission guard (headers only emit shown columns)
+                elif "{SEP}" in v or ("BASE" in v and "IDX" in v):
+                    facts["dup"] = v
+        facts["first"] = seen is not None
+        facts["seen_scope"] = "before-loop" if seen and any(isinstance(s, ast.Assign) and short(s.targets[0]) == seen for s in f.body) else "?"
         break
     return facts
 
@@ -247,14 +274,16 @@ def _kernels(ctx) -> None:
     problems = []
     if fm["domain"] != want_m_domain:
         problems.append(f"the accessor map is built over `{fm['domain']}`, not over all columns with their own positions")
-    for k, want in (("unnamed", "col{idx}_"), ("empty", "col{idx}_"), ("dup", "f'{base}{sep}_{idx}'"), ("sep", "'' if base.endswith('_') else '_'")):
-        if fm.get(k) != want and not (k == "sep" and fm.get(k) in ("'' if base.endswith('_') else '_'",)):
+    for k, want in (("unnamed", "col{idx}_"), ("empty", "col{idx}_"), ("dup", "f'{BASE}{SEP}_{IDX}'"), ("sep", "'' if BASE.endswith('_') else '_'")):
+        if fm.get(k) != want:
             problems.append(f"map kernel: {k} form is {fm.get(k)!r}, expected {want!r}")
     if not fm["first"]:
         problems.append("map kernel: the first occurrence of a name does not keep the plain base")
     # every column gets exactly one entry: column_map[sanitized] = idx at loop-body level
     lp = [s for s in m.body if isinstance(s, ast.For)][0]
-    stores = [s for s in lp.body if isinstance(s, ast.Assign) and short(s.targets[0]).startswith("column_map[")]
+    rets = [x for x in walk_stmts(m.body) if isinstance(x, ast.Return) and isinstance(x.value, ast.Name)]
+    mapv = rets[0].value.id if rets else "column_map"
+    stores = [s for s in lp.body if isinstance(s, ast.Assign) and short(s.targets[0]).startswith(f"{mapv}[")]
     if len(stores) != 1 or short(stores[0].value) != fm.get("idx"):
         problems.append("not every column gets exactly one accessor mapped to its own position")
     ctx.ob("d.kernels-agree", m, "map-kernel", not problems, f"map kernel facts: {fm}", m.node, message="; ".join(problems))
@@ -264,12 +293,10 @@ def _kernels(ctx) -> None:
                         f"(a hidden column may own the plain accessor), with each column's own position")
     for k in ("unnamed", "empty", "dup", "first"):
         a, b = fm.get(k), fh.get(k)
-        if k == "dup" and a and b:
-            a, b = a.replace("base", "X"), b.replace("base", "X").replace("san", "X")
         if a != b:
             problems.append(f"repr header kernel: {k} form {fh.get(k)!r} differs from the map's {fm.get(k)!r}")
-    sa = (fm.get("sep") or "").replace("base", "X")
-    sb = (fh.get("sep") or "").replace("san", "X")
+    sa = fm.get("sep") or ""
+    sb = fh.get("sep") or ""
     if sa != sb:
         problems.append(f"repr header kernel: separator rule {fh.get('sep')!r} differs from the map's {fm.get('sep')!r}")
     # emission only for shown columns, after the name has been computed for every column
@@ -285,13 +312,22 @@ def _kernels(ctx) -> None:
 
 
 # --------------------------------------------------------------------------------------------- e
+_MAP_VARS: Set[str] = set()
+
+
+def _map_vars(f: FuncInfo) -> Set[str]:
+    d = Defs(f)
+    return {n for n, lst in d.assigns.items()
+            if any(v is not None and short(v) in ("self._current_column_map()", "self._column_map") for v, _, _ in lst)}
+
+
 def _is_map_lookup(node) -> bool:
     st = node.ast
     if st is None:
         return False
     for n in ast.walk(st) if node.kind in ("stmt", "test") else []:
         if isinstance(n, ast.Call) and isinstance(n.func, ast.Attribute) and n.func.attr == "get" \
-                and short(n.func.value) in ("column_map", "self._column_map", "self._current_column_map()"):
+                and (short(n.func.value) in ("self._column_map", "self._current_column_map()") or short(n.func.value) in _MAP_VARS):
             return True
     return False
 
@@ -300,6 +336,8 @@ def _lookup(ctx) -> None:
     prog = ctx.prog
     # __getattr__: paths entry -> fallback (`super().__getattribute__`)
     f = prog.func("table.Table.__getattr__")
+    _MAP_VARS.clear()
+    _MAP_VARS.update(_map_vars(f))
     cfg = cfg_of(f)
     fallback = [n for n in cfg.stmt_nodes() if "__getattribute__" in n.text()]
     if not fallback:
@@ -311,6 +349,8 @@ def _lookup(ctx) -> None:
            witness=cfg.fmt_path(path[-6:]) if path else "")
     # __setattr__: paths to the final "Cannot set attribute" raise
     f = prog.func("table.Table.__setattr__")
+    _MAP_VARS.clear()
+    _MAP_VARS.update(_map_vars(f))
     cfg = cfg_of(f)
     final = [n for n in cfg.stmt_nodes() if isinstance(n.ast, ast.Raise) and "Cannot set attribute" in short(n.ast, 200)]
     if not final:
@@ -325,13 +365,16 @@ def _lookup(ctx) -> None:
            message="t.<accessor> = value can be rejected without looking the accessor up: " + (cfg.fmt_path(path[-5:]) if path else ""))
     # __setitem__ string specs
     f = prog.func("table.Table.__setitem__")
+    mv = _map_vars(f)
     n_str = 0
     problems = []
     for s in walk_stmts(f.body):
-        if isinstance(s, ast.If) and short(s.test) in ("isinstance(col_spec, str)", "isinstance(c, str)"):
+        t_ = s.test if isinstance(s, ast.If) else None
+        if isinstance(t_, ast.Call) and short(t_.func) == "isinstance" and len(t_.args) == 2 and isinstance(t_.args[0], ast.Name) \
+                and short(t_.args[1]) == "str":
             n_str += 1
             if not any(isinstance(n, ast.Call) and isinstance(n.func, ast.Attribute) and n.func.attr == "get"
-                       and short(n.func.value) in ("column_map", "self._current_column_map()") for n in walk_no_nested(s)):
+                       and (short(n.func.value) in mv or short(n.func.value) == "self._current_column_map()") for n in walk_no_nested(s.body[0] if False else s)):
                 problems.append(f"the `{short(s.test)}` branch does not look the name up in the accessor map")
     ctx.ob("e.lookup-reached", f, "setitem", not problems and n_str >= 2, f"{n_str} string column specs resolved through the accessor map", f.node,
            message="; ".join(problems) or "string column specs of Table.__setitem__ not found")
@@ -361,8 +404,8 @@ def _fresh(ctx) -> None:
                                f"until rebuilt - read it through _current_column_map()")
     # the helper itself: rebuild-if-wild then return
     h = prog.func("table.Table._current_column_map")
-    t = short(h.node, 1000)
-    ok = "if any((col._wild for col in self._underlying or []))" in t and "self._column_map = self._build_column_map()" in t \
+    t = cshort(h.node, None, 2000)
+    ok = "if any((_0._wild for _0 in self._underlying or []))" in t and "self._column_map = self._build_column_map()" in t \
         and t.rstrip().endswith("return self._column_map")
     ctx.ob("f.map-fresh", h, "helper", ok, "helper rebuilds and stores the map when any column is flagged as renamed", h.node,
            message="_current_column_map no longer rebuilds-and-stores the map when a column is flagged as renamed")
